@@ -3,8 +3,9 @@
 usage: save_seeded.py <ID> <n> <caught_by|MISSED> <what I ran / observed>"""
 import json, os, shutil, sys, glob
 id_, n, caught, note = sys.argv[1], sys.argv[2], sys.argv[3], sys.argv[4]
-src = "/tmp/mut/out/%s/%s" % (id_, n)
-dst = "/verif/seeded/%s-%s" % (id_, n)
+root = os.environ.get("MUTROOT", "/tmp/mut")
+src = "%s/out/%s/%s" % (root, id_, n)
+dst = "/verif/seeded/%s-%s" % (id_, os.environ.get("SAVE_AS", n))
 os.makedirs(dst, exist_ok=True)
 for f in os.listdir(src):
     if f.endswith(".log"):
@@ -18,7 +19,7 @@ meta = json.load(open(os.path.join(src, "meta.json")))
 if ported:
     meta["patch_note"] = "patch.diff is the same change ported onto the current /repo HEAD (the original, against the pristine snapshot, conflicts with a fix: commit); the original is kept as patch_against_pristine_9dff185.diff"
 v = {}
-vp = "/tmp/mut/verify/%s-%s.json" % (id_, n)
+vp = "%s/verify/%s-%s.json" % (root, id_, n)
 if os.path.exists(vp):
     v = json.load(open(vp))
 meta.update({
